@@ -399,6 +399,23 @@ let handle (req : sexp) : String.t =
             let fb = first_bad ox ss inp true f.f_nret (reserved inp true) b O in
             jobj [ "status", jstr "ok"; "valid", jbool (v && rf); "reserved_free", jbool rf;
                    "first_bad", jopt (fun n -> string_of_int (int_of_nat n)) fb ]))
+  | L [A "mirrorrl"; A ru; A order; A dnum; A dden; modes; stiff] ->
+      (* the Rush-Larsen function of the verified mirror generator (MirrorRL.gen_rl) for the observed modes, and
+         the hypotheses of MirrorRL.mirror_rl_correct on the extended model *)
+      let o = the_ode () in
+      let ox = extend_lin o in
+      let st = strs stiff in
+      let is_stiff s = List.exists (fun x -> os x = os s) st in
+      let modes = List.map (fun m -> mode_of (atom m)) (lst modes) in
+      let f = gen_rl o (ru = "1") modes is_stiff (q_of dnum dden) (cs "scheme") (cs order) in
+      let names = all_names ox in
+      let nodup l = List.length (List.sort_uniq compare (List.map os l)) = List.length l in
+      let wfx = nodup names
+                && List.for_all (fun x -> not (resv true x)) names
+                && List.for_all (fun x -> not (resv true x)) (missing_names ox)
+                && List.map os (missing_names ox) = List.map os (missing_names o)
+                && (match sorted_states o with Some ss -> wf_gen o ss true | None -> false) in
+      jobj ["status", jstr "ok"; "func", jopt jfunc f; "wf", jbool wfx]
   | L [A "semeval"; A with_dt; inp; names] ->
       let o = the_ode () in
       (match sorted_states o with
